@@ -95,8 +95,9 @@ func txts(ss ...string) []Txt {
 type OptNode struct {
 	Short     string   `json:"short,omitempty"` // one character or ""
 	Long      string   `json:"long,omitempty"`
-	Kind      string   `json:"kind"`  // flag counter ptrflag scalar slice map ptr func0 func1
-	VType     string   `json:"vtype"` // string int int8 ... uint64 float32 float64 duration um bool
+	Kind      string   `json:"kind"`            // flag counter ptrflag scalar slice map ptr func0 func1
+	VType     string   `json:"vtype"`           // string int int8 ... uint64 float32 float64 duration um bool
+	KType     string   `json:"ktype,omitempty"` // maps: key type ("" = string)
 	Base      int      `json:"base,omitempty"`
 	Optional  bool     `json:"optional,omitempty"`
 	OptVals   []string `json:"optvals,omitempty"`
@@ -177,6 +178,7 @@ type FOpt struct {
 	Long      S      `json:"long"`
 	Kind      string `json:"kind"`
 	VType     string `json:"vtype"`
+	KType     string `json:"ktype"`
 	Base      int    `json:"base"`
 	Optional  bool   `json:"optional"`
 	OptVals   []S    `json:"optvals"`
@@ -384,7 +386,7 @@ func Flatten(t *Tree) *Decl {
 		var walkGroup func(g *GroupNode, gi int)
 		walkGroup = func(g *GroupNode, gi int) {
 			for _, o := range g.Opts {
-				fo := FOpt{Cmd: ci, Group: gi, Short: shortCP(o.Short), Long: toS(o.Long), Kind: o.Kind, VType: o.VType,
+				fo := FOpt{Cmd: ci, Group: gi, Short: shortCP(o.Short), Long: toS(o.Long), Kind: o.Kind, VType: o.VType, KType: ktypeOf(o),
 					Base: base10(o.Base), Optional: o.Optional, OptVals: toSs(o.OptVals), Required: o.Required,
 					Defaults: toSs(o.Defaults), Env: toS(o.Env), EnvDelim: toS(o.EnvDelim), Choices: toSs(o.Choices),
 					Hidden: o.Hidden, Unquote: !o.NoUnquote, IniName: toS(o.IniName), NoIni: o.NoIni,
@@ -442,4 +444,11 @@ func itoa(i int) string {
 		b = append([]byte{'-'}, b...)
 	}
 	return string(b)
+}
+
+func ktypeOf(o *OptNode) string {
+	if o.KType == "" {
+		return "string"
+	}
+	return o.KType
 }
